@@ -49,9 +49,9 @@ func runC03(c *Ctx) {
 	}
 	// pattern compiler by role: callee of preparePattern func(string) string
 	var ptr *ssa.Function
-	eachInstr(pp, func(_ *ssa.BasicBlock, in ssa.Instruction) {
+	eachInstrG(c.P, pp, func(_ *ssa.BasicBlock, in ssa.Instruction) {
 		if ci, ok := in.(ssa.CallInstruction); ok {
-			if cal := ci.Common().StaticCallee(); cal != nil && c.P.IsLibFunc(cal) && cal.Signature.Recv() == nil && cal.Signature.Params().Len() == 1 && typeStr(cal.Signature.Results().At(0).Type()) == "string" {
+			if cal := ci.Common().StaticCallee(); cal != nil && c.P.IsLibFunc(cal) && !c.P.IsNewHelper(cal) && cal.Signature.Recv() == nil && cal.Signature.Params().Len() == 1 && typeStr(cal.Signature.Results().At(0).Type()) == "string" {
 				ptr = cal
 			}
 		}
